@@ -257,6 +257,26 @@ func runC18(seed int64, tier string, sc *Script) map[string]any {
 				if rng.Intn(3) == 0 {
 					c.AccessToken = "access"
 				}
+				if !strings.Contains(c.Username, ":") && rng.Intn(4) == 0 {
+					// the save fails (the config path is, for a moment, a non-empty directory);
+					// once the fault is gone the caller retries the same Put, which must reach the file
+					bak := path + ".bak"
+					_, statErr := os.Stat(path)
+					if statErr == nil {
+						os.Rename(path, bak)
+					}
+					os.MkdirAll(filepath.Join(path, "blocker"), 0o755)
+					ferr := fs.Put(ctx, addr, c)
+					os.RemoveAll(path)
+					if statErr == nil {
+						os.Rename(bak, path)
+					}
+					if ferr == nil {
+						panic("injected save failure did not fail")
+					}
+					sc.Def("# cd putfail addr=%s (save failed: %s)", hx(addr), strings.ReplaceAll(ferr.Error(), " ", "_"))
+					sc.Count("op:put-with-failing-save")
+				}
 				err := fs.Put(ctx, addr, c)
 				res := "ok"
 				if errors.Is(err, credentials.ErrBadCredentialFormat) {
